@@ -14,6 +14,10 @@ TABLE = {
             'Every fluctuation, replica mean, value and covariance gradient of every result is proven equal to the C01 formula for all sample values, over the '
             'enumerated family of chain layouts and operator forms.',
             'Real-number semantics; autograd/numdifftools represented by a dual-number contract; transcendental functions uninterpreted; layouts bounded (see evidence.bounds).'),
+    'C05': (True, 'symbolic execution of reweight/correlate/merge_obs/qtop_projection on z3 reals; SMT equivalence with a per-configuration-number specification',
+            'reweight (both normalisation modes, function/method/Corr), correlate, merge_obs and qtop_projection are proven to pair samples by (replica, configuration '
+            'number) for all sample values over the enumerated layouts; unalignable requests are shown to raise on every enumerated case.',
+            'Real-number semantics; layouts bounded (weights on <= 3 replicas x <= 8 configurations); round() modelled exactly over the reals.'),
 }
 
 NOT_YET = 'check not built yet in this session (work in progress; see DESIGN.md section 4 for the plan)'
